@@ -5,15 +5,15 @@ from pathlib import Path
 CHECKS = {
     # id: (level, technique, text, note)
     "C01": ("model_checking", "explicit-state BFS over State operation histories on the real object, from-scratch oracle after every transition",
-            "All reachable states of the real State object under a finite operation menu (fixpoint on small toy graphs, depth-bounded on larger ones and on every shipped model graph); every transition is executed on the implementation and compared with a from-scratch evaluation.",
+            "All reachable states of the real State object under a finite operation menu (fixpoint on small toy graphs, depth-bounded on larger ones and on every shipped model graph); every transition is executed on the implementation and compared with a from-scratch evaluation. The menu includes moves of the state, updates with and without snapshot, COPY / REF forking with tensors the caller keeps, weighted values with non-binary weights, reads through get_tensor_value, per-individual reverts with boolean masks and 0/1 masks of integer dtypes; State attributes the harness does not know are part of the canonical key.",
             "Tiny value alphabets; partial reverts only under the documented precondition; PYTHONHASHSEED=0, one torch thread."),
 }
 CHECKS.update({
     "C02": ("model_checking", "phased explicit-state BFS (proposal / allowed reads / every rejection mask / following history) on the real State + exhaustive scripted acceptance patterns through the real samplers",
-            "Every reachable state of the proposal-decision protocol on the real State of each model kind (all warm-up/read subsets, a proposal alphabet incl. overflowing and non-finite values, every per-individual mask, bounded following history) and every scripted acceptance pattern of the four samplers; after every transition the state is compared with a from-scratch evaluation of where(rejected, before, proposed). The protocol also contains a move of the state (to_device) and an update made without snapshot between the proposal and the decision (a later rejection must then be refused with the documented input error, never half-applied).",
+            "Every reachable state of the proposal-decision protocol on the real State of each model kind (all warm-up/read subsets, a proposal alphabet incl. overflowing and non-finite values, every per-individual mask, bounded following history) and every scripted acceptance pattern of the four samplers; after every transition the state is compared with a from-scratch evaluation of where(rejected, before, proposed). The protocol also contains a move of the state (to_device) and an update made without snapshot between the proposal and the decision (a later rejection must then be refused with the documented input error, never half-applied). Entirely null proposals, the COPY forking strategy and 0/1 rejection masks of integer dtypes are part of the alphabet.",
             "Proposal alphabets and cohort sizes (2-3 individuals) are small; following history depth-bounded; PYTHONHASHSEED=0."),
     "C19": ("model_checking", "exhaustive stepping of the real (iteration, temperature) machine over a configuration grid + exhaustive binary acceptance-history tree through the real adaptive-scale code",
-            "Every configuration of the annealing grid is run on the real algorithm object (initialisation + one update per iteration, plus complete tiny fits) and every binary acceptance history up to three windows is fed through every sampler class; invariants are checked on every transition. Proposal scales start at 1, at 1e-7..3e-10 and at 1e28; factors 0.1, 0.5, 0.9.",
+            "Every configuration of the annealing grid is run on the real algorithm object (initialisation + one update per iteration, plus complete tiny fits) and every binary acceptance history up to three windows is fed through every sampler class; invariants are checked on every transition. Proposal scales start at 1, at 1e-7..3e-10 and at 1e28; factors 0.1, 0.5, 0.9. Configurations also reach the algorithm through a settings object that served before for another number of iterations; a scale binding records every sampler's acceptance vectors and scales during real personalisations / fits with windows 1-4 (5 in thorough), ONE algorithm object run twice: scales start from the initial value, move only in the adaptation step at multiples of the window, by exactly the configured factor.",
             "Default (linear) annealing scheme only; grids as listed in the evidence bounds; reference plateau length max(1, A // (P-1))."),
 })
 CHECKS.update({
@@ -45,7 +45,7 @@ CHECKS.update({
 })
 CHECKS.update({
     "C16": ("exploration", "exhaustive enumeration of small containers (identifiers x namings x shapes x value types x values) and breadth-first walk of every conversion chain between the five forms to a fixpoint, against a plain-Python reference",
-            "Every container of the bounded space is converted along every chain of dict / table / tensors / CSV / JSON conversions (breadth-first with deduplication until no new container content appears) and every intermediate form and final container is compared with the reference (identifiers as strings in order, names, shapes, values exactly or to single precision once a tensor is on the path); every malformed addition must be refused and leave the container unchanged.",
+            "Every container of the bounded space is converted along every chain of dict / table / tensors / CSV / JSON conversions (breadth-first with deduplication until no new container content appears) and every intermediate form and final container is compared with the reference (identifiers as strings in order, names, shapes, values exactly or to single precision once a tensor is on the path); every malformed addition must be refused and leave the container unchanged. One working dictionary re-bound and handed over for several individuals must leave the earlier entries as they were added.",
             "Alphabets of identifiers / names / shapes / values are small; empty containers, tuples and names ending in _<digits> are left out."),
 })
 CHECKS.update({
@@ -55,7 +55,7 @@ CHECKS.update({
 })
 CHECKS.update({
     "C12": ("exploration", "exhaustive enumeration of model kind x dimension x sources x noise x feature naming x instance name x construction route x parameter source (tiny seeded fits, hand-written vectors) through fit / save / load / save against self-consistency and round-trip oracles",
-            "Every configuration of the grid is fitted (tiny seeded fits with a memory phase) or loaded from hand-written numbers, saved, re-loaded, saved again (three generations): population variables equal their prior modes, derived values and trajectories agree with the saved parameters (float64 closed form), the reloaded model has equal class, hyperparameters, parameters and trajectories, and the file is reproduced byte for byte. Cases include a non-default number of competing events, an object calibrated, used (trajectories computed) and calibrated again, and the instance name of the reloaded object.",
+            "Every configuration of the grid is fitted (tiny seeded fits with a memory phase) or loaded from hand-written numbers, saved, re-loaded, saved again (three generations): population variables equal their prior modes, derived values and trajectories agree with the saved parameters (float64 closed form), the reloaded model has equal class, hyperparameters, parameters and trajectories, and the file is reproduced byte for byte. Cases include a non-default number of competing events, an object calibrated, used (trajectories computed) and calibrated again, and the instance name of the reloaded object. The content of every file is also read as a dictionary, the same dictionary object twice (same model both times, equal to the model read from the file); hand-written content may carry a stale (informative) mixing_matrix entry, tiny dispersions, keys sorted by save(sort_keys=True).",
             "Grid alphabets only; float32 rounding and the documented 0-d vs (1,) noise_std shape are tolerated on the first reload only."),
 })
 CHECKS.update({
@@ -75,12 +75,12 @@ CHECKS.update({
 })
 CHECKS.update({
     "C13": ("model_checking", "explicit-state BFS over sequences of public API calls (fit / estimate / personalize x 3 / simulate / save+load) on a real model object, deduplicated on a canonical key of what the object holds, with deep snapshots around every call and a differential oracle against a history-free model",
-            "Every call sequence up to the depth bound is executed on real model objects (states = canonical keys of parameters + data / latent values held by model.state); around every call the model, the caller's table / Data / settings are deep-snapshotted; non-fit calls must change nothing and leave nothing behind, a repeated call must repeat its answer, and the result of a call after any history must be bit-identical to the same call on a model holding the same parameters and no history (optimiser start point included). Calls with custom settings also pass keyword arguments next to the settings object; the benchmark kinds (lme with and without random slope, constant) are explored with their own BFS (whole-object snapshot, inputs, repetition, freshly loaded reference).",
+            "Every call sequence up to the depth bound is executed on real model objects (states = canonical keys of parameters + data / latent values held by model.state); around every call the model, the caller's table / Data / settings are deep-snapshotted; non-fit calls must change nothing and leave nothing behind, a repeated call must repeat its answer, and the result of a call after any history must be bit-identical to the same call on a model holding the same parameters and no history (optimiser start point included). Calls with custom settings also pass keyword arguments next to the settings object; the estimate request mixes a list, an array and a single age given as a number; the benchmark kinds (lme with and without random slope, constant) are explored with their own BFS (whole-object snapshot, inputs, repetition, freshly loaded reference).",
             "Depth 3 (quick) / 4 (thorough); tiny fits and personalizations; mixture model not covered; where a saved file is not bit-faithful (C12 territory) the reference gets the exact parameter tensors."),
 })
 CHECKS.update({
     "C11": ("exploration", "exhaustive enumeration of algorithm x model x seed x logging-option product x prior activity in the interpreter, plus fresh interpreters under five hash seeds, comparing byte-level result digests with a reference run",
-            "Every accepted combination of print / save / plot periodicities, patient plots, sourcewise flag and output path, and every prior activity of the menu (consumed random numbers, other fits / personalizations first, reused settings object, dtype switches), is run for fit (three population samplers), the three personalizations and simulate on two model kinds and three seeds; the byte-level digest of the result must equal that of the plain reference run, also from freshly started interpreters under PYTHONHASHSEED 0..4; refused option combinations must be refused at settings time. A fit with annealing on goes through the same grids; scipy_minimize with n_jobs >= 2 is repeated inside one new interpreter (same cohort twice in a row and again after other cohorts); on a model object fitted in the process the seeded personalize / simulate call is made twice (identical bytes).",
+            "Every accepted combination of print / save / plot periodicities, patient plots, sourcewise flag and output path, and every prior activity of the menu (consumed random numbers, other fits / personalizations first, reused settings object, dtype switches), is run for fit (three population samplers), the three personalizations and simulate on two model kinds and three seeds; the byte-level digest of the result must equal that of the plain reference run, also from freshly started interpreters under PYTHONHASHSEED 0..4; refused option combinations must be refused at settings time. A fit with annealing on goes through the same grids; scipy_minimize with n_jobs >= 2 is repeated inside one new interpreter (same cohort twice in a row and again after other cohorts); on a model object fitted in the process the seeded personalize / simulate call is made twice (identical bytes). One seeded algorithm object (algorithm_factory) is run three times in a row (new model copies, random numbers consumed in between): every run returns the bytes of the public call.",
             "Tiny data, n_iter 6; the full logging product only for fit(Gibbs) in the thorough tier, 2-valued grid elsewhere."),
     "C17": ("exploration", "exhaustive enumeration of model kind x cohort x identifier scheme x input form x algorithm x settings (iterations, burn-in, annealing, seed, optimiser) with recording spies on scipy.optimize.minimize, the individual sampler and the posterior summarisers",
             "Every case of the grid is personalised by the real algorithms: keys = input identifiers (as strings) in input order, expected shapes, finite values; scipy_minimize: the objective re-evaluated from scratch at the returned point is not worse than at the recorded start; MCMC: the kept draws are bit-equal to the chain's draws after burn-in, their recorded attachment / regularity equal the from-scratch values, and the result is exactly their mean / the first draw of minimal loss per individual; with n_jobs >= 2 (separate interpreter, optimisations recorded inside the workers with the identifier they ran for) the estimate returned under an identifier has, on that individual's own data, the objective value the optimiser reported for it.",
